@@ -155,18 +155,10 @@ def execute(history):
                     F = zoo.fresh_model(recipe, zoo.model_state(M, recipe))
                     F.eval()
                     F.likelihood.eval()
-                    rf = driver.predict(F, args, dict(op, grad=False), op.get("lik", False))
-                    if rm[0] == "exc" and rf[0] == "ok" and op.get("grad"):
-                        # the live call ran with autograd enabled, where distances are computed by another routine: in a
-                        # numerically degenerate state (diverged optimiser: lengthscale ~ 1e-270) one routine yields NaN and
-                        # the other does not.  Judge the raise against a fresh model called in the same autograd mode.
-                        F2 = zoo.fresh_model(recipe, zoo.model_state(M, recipe))
-                        F2.eval()
-                        F2.likelihood.eval()
-                        rf2 = driver.predict(F2, args, op, op.get("lik", False))
-                        if rf2[0] == "exc":
-                            out.stats["probe:fresh_raises_too_in_autograd_mode"] += 1
-                            rf = rf2
+                    # same autograd mode as the live call: squared distances are post-processed differently when inputs require
+                    # grad (no exact zeros on the diagonal), which changes K_ZZ by rounding and q(f) by up to 1e-4 relative - a pure
+                    # function of the mode, not of the history
+                    rf = driver.predict(F, args, op, op.get("lik", False))
                 except Exception as e:  # noqa
                     rf = ("torn", type(e).__name__, str(e)[:200])
                 out.stats["oracle_comparisons"] += 1
